@@ -69,7 +69,195 @@ def closure_axioms(formulas):
                 out.append(a)
     if need_ground:
         out.extend(ground_type_facts())
+    out.extend(global_row_axioms(formulas))
     return out
+
+
+_READS_CACHE = {}
+_POS_CACHE = {}
+_NORM_CACHE = {}
+
+
+class _AliasClasses:
+    """Transitive closure of the collected equations (bounded breadth-first search per lookup)."""
+    def __init__(self, direct):
+        self.direct = direct
+        self.cache = {}
+
+    def get(self, tid, default=()):
+        if tid in self.cache:
+            return self.cache[tid]
+        seen = {tid}
+        out = []
+        frontier = list(self.direct.get(tid, ()))
+        while frontier and len(out) < 24:
+            t = frontier.pop()
+            i = t.get_id()
+            if i in seen:
+                continue
+            seen.add(i)
+            out.append(t)
+            frontier.extend(self.direct.get(i, ()))
+        self.cache[tid] = out
+        return out
+
+
+def _norm_select(t):
+    """Select over a chain of stores at syntactically different constant indices: the underlying read."""
+    if not (z3.is_app(t) and t.decl().kind() == z3.Z3_OP_SELECT):
+        return t
+    k = t.get_id()
+    hit = _NORM_CACHE.get(k)
+    if hit is None:
+        hit = (t, z3.simplify(t))
+        _NORM_CACHE[k] = hit
+    return hit[1]
+
+
+def _position_terms(f):
+    k = f.get_id()
+    hit = _POS_CACHE.get(k)
+    if hit is None:
+        hit = (f, [e for e in smt.subterms([f]) if z3.is_app(e) and e.decl().name() in ("put_in", "sub_of")])
+        _POS_CACHE[k] = hit
+    return hit[1]
+
+
+
+def _reads_and_aliases(f):
+    """(reads, equalities between Val terms) occurring in formula f; cached."""
+    k = f.get_id()
+    hit = _READS_CACHE.get(k)
+    if hit is not None:
+        return hit[1], hit[2]
+    reads, eqs = [], []
+    for e in smt.subterms([f]):
+        if not z3.is_app(e):
+            continue
+        nm = e.decl().name()
+        if nm in ("dict_has", "dict_get") and e.num_args() == 2:
+            reads.append((nm, e.children()[0], e.children()[1]))
+        elif e.decl().kind() == z3.Z3_OP_EQ and e.children()[0].sort() == Val:
+            eqs.append((e.children()[0], e.children()[1]))
+    _READS_CACHE[k] = (f, reads, eqs)
+    return reads, eqs
+
+
+def global_row_axioms(formulas):
+    """Read-over-write for the dict operation symbols [SPEC-BUILTIN], instantiated at every occurring read and
+    followed (a) down chains of writes, (b) through array stores, (c) through EQUATIONS between value terms that
+    occur in the formulas (states of different havoc generations are linked by frame equations)."""
+    reads, alias = [], {}
+    for f in formulas:
+        if not z3.is_expr(f):
+            continue
+        r, eqs = _reads_and_aliases(f)
+        reads.extend(r)
+        for a, b in eqs:
+            alias.setdefault(a.get_id(), []).append(b)
+            alias.setdefault(b.get_id(), []).append(a)
+            an, bn = _norm_select(a), _norm_select(b)
+            if not an.eq(a):
+                alias.setdefault(a.get_id(), []).append(an)
+                alias.setdefault(an.get_id(), []).append(a)
+            if not bn.eq(b):
+                alias.setdefault(b.get_id(), []).append(bn)
+                alias.setdefault(bn.get_id(), []).append(b)
+    alias = _AliasClasses(alias)
+    ax = []
+    # position algebra [L-COMP] through equations: put_in(put_in(x,n,a),n,b) = put_in(x,n,b);
+    # sub_of(put_in(x,n,y),n) = y; put_in(x,n,sub_of(x,n)) = x
+    pwork = []
+    for f in formulas:
+        if z3.is_expr(f):
+            pwork.extend(_position_terms(f))
+    pseen = set()
+    psteps = 0
+    while pwork and psteps < 400:
+        psteps += 1
+        e = pwork.pop()
+        if e.get_id() in pseen:
+            continue
+        pseen.add(e.get_id())
+        nm = e.decl().name()
+        if nm == "put_in":
+            X, n, b = e.children()
+            Xs = _norm_select(X)
+            if not Xs.eq(X):
+                ax.append(X == Xs)
+            for Y in [X, Xs] + alias.get(X.get_id(), []) + alias.get(Xs.get_id(), []):
+                Yn = _norm_select(Y)
+                for Y2 in (Y, Yn):
+                    if z3.is_app(Y2) and Y2.decl().name() == "put_in":
+                        x, n2, a = Y2.children()
+                        t2 = bs.put_in(x, n, b)
+                        ax.append(z3.Implies(n == n2, bs.put_in(Y2, n, b) == t2))
+                        if not Y2.eq(Y):
+                            ax.append(Y == Y2)
+                        pwork.append(t2)
+            for B in [b] + alias.get(b.get_id(), []):
+                if z3.is_app(B) and B.decl().name() == "sub_of":
+                    x2, n2 = B.children()
+                    ax.append(z3.Implies(z3.And(x2 == X, n2 == n), bs.put_in(X, n, B) == X))
+        else:
+            X, n = e.children()
+            for Y in [X] + alias.get(X.get_id(), []):
+                if z3.is_app(Y) and Y.decl().name() == "put_in":
+                    x, n2, y = Y.children()
+                    ax.append(z3.Implies(n == n2, bs.sub_of(Y, n) == y))
+    done = set()
+    work = list(reads)
+    steps = 0
+    while work and steps < 4000:
+        steps += 1
+        kind, c, j = work.pop()
+        key = (kind, c.get_id(), j.get_id())
+        if key in done:
+            continue
+        done.add(key)
+        for c2 in alias.get(c.get_id(), ()):
+            k2 = (kind, c2.get_id(), j.get_id())
+            if k2 not in done:
+                # create the read on the equal term (congruence links it to the original one)
+                rd = bs.dict_has(c2, j) if kind == "dict_has" else bs.dict_get(c2, j)
+                ax.append(rd == rd)
+                work.append((kind, c2, j))
+        if not z3.is_app(c):
+            continue
+        nm = c.decl().name()
+        if nm == "dict_set":
+            c0, k, x = c.children()
+            if kind == "dict_has":
+                ax.append(bs.dict_has(c, j) == z3.Or(j == k, bs.dict_has(c0, j)))
+            else:
+                ax.append(bs.dict_get(c, j) == z3.If(j == k, x, bs.dict_get(c0, j)))
+            work.append((kind, c0, j))
+        elif nm == "dict_del":
+            c0, k = c.children()
+            if kind == "dict_has":
+                ax.append(bs.dict_has(c, j) == z3.And(j != k, bs.dict_has(c0, j)))
+            else:
+                ax.append(z3.Implies(j != k, bs.dict_get(c, j) == bs.dict_get(c0, j)))
+            work.append((kind, c0, j))
+        elif nm == "dict_empty":
+            if kind == "dict_has":
+                ax.append(z3.Not(bs.dict_has(c, j)))
+        elif c.decl().kind() == z3.Z3_OP_ITE:
+            _, a, b = c.children()
+            work.append((kind, a, j))
+            work.append((kind, b, j))
+        elif c.decl().kind() == z3.Z3_OP_SELECT:
+            arr, idx = c.children()
+            while z3.is_app(arr) and arr.decl().kind() == z3.Z3_OP_STORE:
+                a0, i0, v0 = arr.children()
+                rd = bs.dict_has(v0, j) if kind == "dict_has" else bs.dict_get(v0, j)
+                ax.append(z3.Implies(idx == i0, (bs.dict_has(c, j) if kind == "dict_has" else bs.dict_get(c, j)) == rd))
+                work.append((kind, v0, j))
+                if not (idx.eq(i0)):
+                    base_read = z3.Select(a0, idx)
+                    work.append((kind, base_read, j))
+                arr = a0
+    return ax
 
 
 def _axioms_of(f):
@@ -123,10 +311,15 @@ def _axioms_of(f):
             ax.append(z3.Implies(smt.is_VRef(t), e == smt.ClsOf(Val.addr(t))))
         elif nm == "inst":
             t, k = args
+            if z3.is_int_value(k):
+                # the ABC hierarchy [E-ABC]: Mapping / Sequence (and their mutable variants) are Collections
+                kid = k.as_long()
+                for sub, sup in ABC_EDGES:
+                    if kid == smt.tid_of(sub):
+                        ax.append(z3.Implies(e, smt.inst(t, z3.IntVal(smt.tid_of(sup)))))
             if z3.is_app(t) and t.decl().name() == "tyof" and z3.is_int_value(k) and k.as_long() in synced:
                 # only references to synced nodes are instances of synced classes (Inv.node)
                 ax.append(z3.Implies(e, smt.is_VRef(t.children()[0])))
-    ax.extend(row_axioms(f))
     from .stdlib_spec import stdlib_axioms
     ax.extend(stdlib_axioms([f]))
     ax.extend(path_axioms(f))
@@ -153,6 +346,27 @@ def row_axioms(f):
     for e in smt.subterms([f]):
         if z3.is_app(e) and e.decl().name() in ("dict_has", "dict_get") and e.num_args() == 2:
             work.append((e.decl().name(), e.children()[0], e.children()[1]))
+    # lists: append
+    for e in smt.subterms([f]):
+        if not z3.is_app(e):
+            continue
+        nm = e.decl().name()
+        if nm == "list_len":
+            c = e.children()[0]
+            ax.append(e >= 0)
+            if z3.is_app(c) and c.decl().name() == "list_append":
+                ax.append(e == bs.list_len(c.children()[0]) + 1)
+                ax.append(bs.list_len(c.children()[0]) >= 0)
+            if z3.is_app(c) and c.decl().name() == "list_empty":
+                ax.append(e == 0)
+        if nm == "list_get":
+            c, j = e.children()
+            if z3.is_app(c) and c.decl().name() == "list_append" and z3.is_app(j) and j.decl().name() == "VInt":
+                c0, x = c.children()
+                ji = j.children()[0]
+                ax.append(z3.Implies(z3.And(ji >= 0, ji <= bs.list_len(c0)),
+                                     e == z3.If(ji == bs.list_len(c0), x, bs.list_get(c0, j))))
+                ax.append(bs.list_len(c0) >= 0)
     while work:
         kind, c, j = work.pop()
         key = (kind, c.get_id(), j.get_id())
@@ -211,6 +425,10 @@ def path_axioms(f):
         ax.append(inv(j) == b)         # injective in the basename (and join/split are inverse)
     return ax
 
+
+ABC_EDGES = [("Mapping", "Collection"), ("Sequence", "Collection"), ("MutableMapping", "Mapping"),
+             ("MutableSequence", "Sequence"), ("str", "Sequence"), ("dict", "MutableMapping"), ("list", "MutableSequence"),
+             ("bool", "int")]
 
 PREDS = {"dict_has", "list_idx_ok", "list_set_ok", "list_del_ok", "list_contains", "list_pop_ok",
          "list_lt", "list_le", "list_gt", "list_ge", "dict_len", "list_len", "list_set_exc"}
@@ -272,6 +490,18 @@ class Prover:
                                      "solver": "z3-" + z3.get_version_string(), "result": "unsat",
                                      "time_s": round(dt, 4)})
             return True
+        import os as _os
+        if r == "sat" and _os.environ.get("PYVC_DEBUG_OB") and _os.environ["PYVC_DEBUG_OB"] in name:
+            print("DEBUG", name)
+            print("  goal:", goal)
+            seen = set()
+            for e in smt.subterms([goal]):
+                if z3.is_app(e) and e.num_args() > 0 and e.get_id() not in seen and len(str(e)) < 400:
+                    seen.add(e.get_id())
+                    try:
+                        print("   ", str(e).replace("\n", " ")[:160], "=", model.eval(e, model_completion=True))
+                    except Exception:
+                        pass
         rec = {"path": list(st.trace), "events": [summarise_event(e) for e in st.events], "info": info or {}}
         if r == "sat":
             rec["model"] = model_summary(model)
